@@ -177,8 +177,17 @@ Fixpoint ref_payloads (rows : list (list Z)) : list (list Z) :=
               else ref_errors (row_value r) :: ref_payloads t
   end.
 
+(* sequential engine: an entry's identifier is the record's position in the input *)
+Fixpoint ref_positions (g : Z) (rows : list (list Z)) : list (list Z) :=
+  match rows with
+  | [] => []
+  | r :: t => if ref_valid (row_value r) then ref_positions (g + 1) t
+              else (g :: ref_errors (row_value r)) :: ref_positions (g + 1) t
+  end.
+
 (* the property instance on one validation step applied to `rows` *)
-Definition prop_run (md : mode) (hc : bool) (rows : list (list Z)) (o : obs) : bool :=
+Definition prop_run (md : mode) (hc : bool) (seq : bool) (rows : list (list Z)) (o : obs)
+  : bool :=
   let n_in := Z.of_nat (List.length rows) in
   let n_bad := Z.of_nat (List.length (ref_payloads rows)) in
   match md with
@@ -198,7 +207,8 @@ Definition prop_run (md : mode) (hc : bool) (rows : list (list Z)) (o : obs) : b
           (if (match md with LogAndContinue => hc | _ => false end)
            then (cnt =? n_bad) && (Z.of_nat (List.length oes) =? cnt) &&
                 (Z.of_nat (List.length orows) + cnt =? n_in) &&
-                mset_eqb (map obs_payload oes) (ref_payloads rows)
+                mset_eqb (map obs_payload oes) (ref_payloads rows) &&
+                (if seq then mset_eqb (map obs_code oes) (ref_positions 0 rows) else true)
            else (cnt =? 0) && match oes with [] => true | _ => false end)
       end
   end.
@@ -207,7 +217,7 @@ Definition judge_run (keyed : bool) (md : mode) (hc : bool) (seq : bool)
            (rows : list (list Z)) (o : obs) : bool * bool :=
   let m := if keyed then model_run_keyed md hc rows else model_run md hc rows in
   let inv := invalid_positions 0 (map row_value rows) in
-  (agree_with (if keyed then 1 else 0) seq (Some inv) m o, prop_run md hc rows o).
+  (agree_with (if keyed then 1 else 0) seq (Some inv) m o, prop_run md hc seq rows o).
 
 (* ---------- exhaustive rows ---------- *)
 (* record i of a pattern: v = 4 i + (bit i ? 1 + i mod 3 : 0); keyed rows carry key (7 i) mod 3 *)
